@@ -80,6 +80,8 @@ PLAN = {
     },
     "C17": {
         "quick": [S("hook-default"), S("m2-default-unsafe", tag="children"),
+                  # concurrent first calls under Miri's data-race detector: 10 groups, one interpreter process each
+                  S("miri-plain-unsafe", tag="miri-race", miri={"depth": 1, "shards": 10, "kinds": "race-quick"}),
                   S("hookdbg-explore", tag="dbg-c11", check="C11", only="histories-from"),
                   S("hookdbg-explore", tag="dbg-c03", check="C03", only="histories"),
                   S("hookdbg-explore", tag="dbg-c01", check="C01", only="prefix-lengths"),
@@ -99,6 +101,9 @@ PLAN = {
                   S("miri-hook-avx2-unsafe", tag="miri-hook", miri={"depth": 1, "shards": 16}),
                   S("miri-plain-unsafe", tag="miri-plain", miri={"depth": 1, "shards": 16}),
                   S("miri-plain-nosimd-unsafe", tag="miri-nosimd", miri={"depth": 1, "shards": 16}),
+                  # concurrent first calls, one interpreter process per item (Miri's data-race detector as the monitor)
+                  S("miri-plain-unsafe", tag="miri-race", miri={"depth": 1, "shards": 40, "kinds": "race,race-quick"}),
+                  S("miri-hook-avx2-unsafe", tag="miri-race-hook", miri={"depth": 1, "shards": 40, "kinds": "race,race-quick"}),
                   S("miri-plain-serde-unsafe", tag="miri-serde", miri={"depth": 1, "shards": 16, "kinds": "serde"}),
                   S("miri-plain-serde-strict-unsafe", tag="miri-serde-strict", miri={"depth": 1, "shards": 16, "kinds": "serde"}),
                   S("asan0-default", tag="asan0-c07s", check="C07", only="agg-backends-shapes", env={"ASAN_OPTIONS": "detect_leaks=0"}),
